@@ -20,10 +20,13 @@ type ans =
 
 let parse_req (t : string) : req option =
   match String.split_on_char ':' t with
-  | [k; scope; api; sni; fb; vname; others] when k = "G" || k = "H" ->
+  | [k; scope; api; sni; fb; vname; others] when k = "G" || k = "H" || k = "X" ->
+      (* X = CONNECT <fb> through a real martian.Proxy; its api slot carries what a request
+         modifier rewrote req.URL.Host to, which must NOT influence the certificate: the model
+         is TLSForHost(CONNECT authority) whatever the rewrite *)
       let fb' = chars_of_hex fb in
       Some { kind = k.[0]; scope;
-             api = (if api = "T" then ApiTLS else ApiForHost fb');
+             api = (if api = "T" && k <> "X" then ApiTLS else ApiForHost fb');
              sni = chars_of_hex sni; fb = fb'; vname = chars_of_hex vname;
              others = List.map chars_of_hex (split_on ',' others) }
   | _ -> None
@@ -326,7 +329,7 @@ let judge_conc parse_ip cfg (ops : string list) (outs : string list) : verdict =
 let judge _name ins outs =
   try
     match ins with
-    | kind :: v :: o :: ops0 when (kind = "SEQ" || kind = "CONC" || kind = "SHARED")
+    | kind :: v :: o :: ops0 when (kind = "SEQ" || kind = "CONC" || kind = "SHARED" || kind = "PROXY")
                                  && String.length v > 1 && v.[0] = 'v' && String.length o >= 1 && o.[0] = 'o' ->
         if outs = ["BADCASE"] then VDisagree "harness-rejected-case" else
         (* SHARED: n<rounds> p<pause> b<fallback> precede the threads; every ForHost op carries the same fallback *)
@@ -336,7 +339,7 @@ let judge _name ins outs =
         let (body, tab) = split_tab outs in
         let (parse_ip, ip, sp) = build_tables tab in
         let tabcheck = check_tables ip sp in
-        let v = if kind = "SEQ" then judge_seq parse_ip cfg ops body else judge_conc parse_ip cfg ops body in
+        let v = if kind = "SEQ" || kind = "PROXY" then judge_seq parse_ip cfg ops body else judge_conc parse_ip cfg ops body in
         (match v, tabcheck with
          | VPropfail _, _ -> v
          | _, Some d -> VDisagree d
